@@ -301,3 +301,39 @@ func VX_C09_rebuild() {
 	vx.Check(eq2, "Equal frames give Equal results")
 	vx.Reach("end")
 }
+
+// VX_C09_enum_dicts: Equals on enum columns whose value dictionaries differ (derived enums:
+// the dictionary is whatever occurs in the data, in order of appearance).
+func VX_C09_enum_dicts() {
+	n := 3
+	mk := func() ([]*string, []string, []bool) {
+		ptrs := make([]*string, n)
+		vals := make([]string, n)
+		nulls := make([]bool, n)
+		for r := 0; r < n; r++ {
+			k := vxConc(vx.IntN(0, 3), 4) // null, or one of three values
+			if k == 0 {
+				nulls[r] = true
+				continue
+			}
+			s := []string{"x", "b", "c"}[k-1]
+			vals[r] = s
+			ptrs[r] = &s
+		}
+		return ptrs, vals, nulls
+	}
+	p1, v1, n1 := mk()
+	p2, v2, n2 := mk()
+	f := New(map[string]interface{}{"e": p1}, newqf.Enums(map[string][]string{"e": nil}))
+	g := New(map[string]interface{}{"e": p2}, newqf.Enums(map[string][]string{"e": nil}))
+	vx.Assume(f.Err == nil && g.Err == nil)
+	eq := true
+	for r := 0; r < n; r++ {
+		eq = eq && n1[r] == n2[r] && (n1[r] || v1[r] == v2[r])
+	}
+	e1, _ := f.Equals(g)
+	e2, _ := g.Equals(f)
+	vx.Check(e1 == eq, "Equals iff all cells equal (enum columns with different dictionaries)")
+	vx.Check(e2 == eq, "Equals is symmetric")
+	vx.Reach("end")
+}
